@@ -20,7 +20,7 @@ inductive Re where
   | seq (a b : Re)
   | alt (a b : Re)
   | rep (r : Re) (lo : Nat) (hi : Option Nat)   -- r{lo,hi}; hi = none: unbounded
-  deriving Repr, Inhabited
+  deriving Repr, Inhabited, DecidableEq
 
 namespace Re
 
@@ -93,7 +93,7 @@ end Re
 structure PatAlt where
   body : Re
   anchoredEnd : Bool
-  deriving Repr, Inhabited
+  deriving Repr, Inhabited, DecidableEq
 
 def PatAlt.matches (p : PatAlt) (s : List Char) : Bool :=
   if p.anchoredEnd then
